@@ -297,6 +297,13 @@ carquet_status_t carquet_read_data_page_v1(
         num_values = (int32_t)max_values;
     }
 
+    /* An empty data page is legal: there is nothing to decode, and there may
+     * be no buffers to decode into. */
+    if (num_values == 0) {
+        *values_read = 0;
+        return CARQUET_OK;
+    }
+
     /* Levels are only decoded from the RLE/bit-packed hybrid. The deprecated
      * BIT_PACKED level encoding has a different layout (no length prefix,
      * MSB-first), so decoding it as RLE would yield wrong levels and values. */
@@ -1495,8 +1502,9 @@ carquet_status_t carquet_read_next_page(
         return CARQUET_ERROR_INVALID_ARGUMENT;
     }
 
-    /* Load a new page if needed */
-    if (!reader->page_loaded || reader->page_values_read >= reader->page_num_values) {
+    /* Load a new page if needed; a page without values (legal, if unusual)
+     * is stepped over, it does not end the column */
+    while (!reader->page_loaded || reader->page_values_read >= reader->page_num_values) {
         /* If we had a previous page, advance past it */
         if (reader->page_loaded) {
             reader->current_page += reader->page_header_size + reader->page_compressed_size;
